@@ -1516,6 +1516,9 @@ namespace bloch::runtime {
                 thisVal.objectValue = std::shared_ptr<Object>(obj, [](Object*) {});
                 thisVal.className = cur->name;
                 m_env.back()["this"] = {thisVal, false, true};
+                // The object may be dying because its owner is returning: that pending return
+                // (or a 'return;' in a derived destructor) must not cut this body short.
+                m_hasReturn = false;
                 try {
                     for (auto& stmt : cur->destructorDecl->body->statements) {
                         exec(stmt.get());
